@@ -74,7 +74,10 @@ def h_diff(ctx, name, n, skeleton=None):
 
 
 SKELETONS = [["%", None, "X", "X"], ["%", "X", None, "X"], ["%", "X", "X", None], [None, "%", "X", "X"],
-             ["%", "X", "X", "%", "X", "X"]]
+             ["%", "X", "X", "%", "X", "X"],
+             # a (possibly incomplete) escape run followed by two malformed '%' (pending bytes must be flushed exactly once)
+             ["%", "X", "X", "%", "%", None]]
+SKELETONS_THOROUGH = [["%", "X", "X", "%", None, "%", None]]
 
 
 def families(tier):
@@ -86,7 +89,7 @@ def families(tier):
         for k in range(1, nmax + 1):
             fams.append(Family("%s/n=%d" % (name, k), h_diff, dict(name=name, n=k), backends=("c",)))
         if kind == "_Unquoter" or name in requoters:
-            for i, sk in enumerate(SKELETONS):
+            for i, sk in enumerate(SKELETONS + ([] if q or kind != "_Unquoter" else SKELETONS_THOROUGH)):
                 fams.append(Family("%s/escape-%d" % (name, i), h_diff, dict(name=name, n=0, skeleton=sk), backends=("c",)))
     # the buffer-growth code paths: re-parameterised buffer constant
     for bs in ((3,) if q else (1, 2, 3, 5)):
